@@ -296,6 +296,7 @@ type SymCtx struct {
 	counter  int
 	preset   map[string]string // go string -> symbol declared by the spec prelude
 	isPreset map[string]bool
+	external map[string]bool // symbols declared by the spec prelude
 }
 
 func NewSymCtx() *SymCtx {
@@ -338,6 +339,9 @@ func (c *SymCtx) Named(name string, sort Sort) Term {
 
 func (c *SymCtx) Func(name string, args []Sort, res Sort) string {
 	q := quoteSym(name)
+	if c.external[q] {
+		return q
+	}
 	if !c.declared[q] {
 		c.declared[q] = true
 		if args == nil {
